@@ -229,6 +229,16 @@ func runPlan(res *core.Result, r *rand.Rand, lp *linkPair, dir wire.Dir, p plan,
 				out = [][]byte{msg, history[p.at]}
 				faultDone = true
 			}
+		case "gap-replay":
+			// frames at+1 .. at+distance-1 are lost, frame at is delivered again after frame at+distance
+			switch {
+			case rel > p.at && rel < p.at+p.distance:
+				out = nil
+				touched[rel] = true
+			case rel == p.at+p.distance && p.at < len(history):
+				out = [][]byte{msg, history[p.at]}
+				faultDone = true
+			}
 		case "swap":
 			if rel == p.at {
 				held = append(held, msg)
@@ -463,6 +473,9 @@ func genPlans(r *rand.Rand, quick bool) []plan {
 		ps = append(ps, plan{kind: "hold", at: 3, distance: d, field: "whole-frame"})
 	}
 	ps = append(ps, plan{kind: "replay", at: 0, distance: 250, field: "whole-frame"})
+	for _, d := range []int{2, 3, 62, 63, 64, 65, 66, 128} {
+		ps = append(ps, plan{kind: "gap-replay", at: 4, distance: d, field: "whole-frame"})
+	}
 	ps = append(ps, plan{kind: "swap", at: 7, field: "whole-frame"}, plan{kind: "swap", at: 0, field: "whole-frame"})
 	ps = append(ps, plan{kind: "drop", at: 9, field: "whole-frame"}, plan{kind: "drop", at: 0, field: "whole-frame"})
 	for _, cut := range []int{0, 1, 2, 5, 12, 13, 100} {
